@@ -744,13 +744,46 @@ func ruleC16Pop(cx *Ctx) {
 		tier1("await published", !reach[adv.Block()] && len(cut) >= 2, cx.P.where(adv))
 	}
 	if clear != nil {
-		notJump := false
-		for _, g := range guardsAt(clear.Block()) {
-			if b, ok := g.Cond.(*ssa.BinOp); ok && b.Op == token.EQL && !g.Truth && (sameField(fieldOf(b.Y), jump) || sameField(fieldOf(b.X), jump)) {
-				notJump = true
+		// every value that can be handed out was itself compared with the marker: the returned value, or - when it is a
+		// phi (the slot is re-read after waiting for its producer) - each incoming value on its edge
+		isNotJump := func(g Guard, v ssa.Value) bool {
+			b, ok := g.Cond.(*ssa.BinOp)
+			if !ok || b.Op != token.EQL || g.Truth {
+				return false
 			}
+			return (b.X == v && sameField(fieldOf(b.Y), jump)) || (b.Y == v && sameField(fieldOf(b.X), jump))
 		}
-		tier1("marker not consumed", notJump, cx.P.where(clear))
+		notJump, nret := true, 0
+		allInstrs(fn, func(in ssa.Instruction) {
+			ret, ok := in.(*ssa.Return)
+			if !ok || len(ret.Results) != 1 || isNilConst(ret.Results[0]) {
+				return
+			}
+			rv := stripConv(ret.Results[0])
+			if _, isCall := rv.(*ssa.Call); isCall && !isAtomicPtr(rv.(*ssa.Call), "LoadPointer") {
+				return // the jump path returns what the helper found in the next buffer (decided below)
+			}
+			nret++
+			check := func(v ssa.Value, gs []Guard) {
+				ok := false
+				for _, g := range gs {
+					if isNotJump(g, v) {
+						ok = true
+					}
+				}
+				if !ok {
+					notJump = false
+				}
+			}
+			if ph, isPhi := rv.(*ssa.Phi); isPhi {
+				for i, e := range ph.Edges {
+					check(stripConv(e), append(guardsOnEdge(ph.Block().Preds[i], ph.Block()), guardsAt(ph.Block().Preds[i])...))
+				}
+			} else {
+				check(rv, guardsAt(ret.Block()))
+			}
+		})
+		tier1("marker not consumed", notJump && nret > 0, cx.P.where(clear))
 	}
 	// (3)-(5) the jump path, on the path summaries of TryPop with its helpers inlined (they may be one function or several):
 	// a slot holding the marker leads to the buffer linked at nextArrayOffset(mask) of the exhausted buffer; the link is
